@@ -56,13 +56,20 @@ theorem hashHeight_of_getElem? (v : View) (hn : v.chain.Nodup) (h : Nat) (x : Id
   rw [List.Nodup.idxOf_getElem hn h hlt]
   simp [hlt]
 
+theorem idxOf_of_getElem? (v : View) (hn : v.chain.Nodup) (h : Nat) (x : Id)
+    (hx : v.chain[h]? = some x) : v.chain.idxOf x = h ∧ h < v.chain.length := by
+  obtain ⟨hlt, rfl⟩ := List.getElem?_eq_some_iff.mp hx
+  exact ⟨List.Nodup.idxOf_getElem hn h hlt, hlt⟩
+
 theorem previousHash_of_getElem? (v : View) (hn : v.chain.Nodup) (h : Nat) (x : Id)
     (hx : v.chain[h]? = some x) :
     v.previousHash x = (match h with
       | 0 => none
       | h' + 1 => if h' < v.window then none else v.chain[h']?) := by
+  obtain ⟨hi, hlt⟩ := idxOf_of_getElem? v hn h x hx
   unfold View.previousHash
-  rw [hashHeight_of_getElem? v hn h x hx]
+  rw [hi]
+  simp only [hlt, ↓reduceIte]
   cases h <;> rfl
 
 theorem slice_cons (v : View) (h T : Nat) (x : Id) (hT : T < v.chain.length) (hh : h ≤ T)
